@@ -66,7 +66,7 @@ def semantic(case):
         if a is None or b is None or dup:
             known = (r["start"].split(":")[0] != r["start"].split(":")[0].lstrip() or r["start"].count(":") > 1
                      or r["stop"].split(":")[0] != r["stop"].split(":")[0].lstrip() or r["stop"].count(":") > 1)
-            return ("known-F8" if known and not dup else None), False
+            return ("known-F8" if known and not dup and C.finding_open("F8") else None), False
         off = H.FIXED_ZONES[case.get("tz", "UTC")]
         now = H.clock_reading(case)
         # "today" is read by the library from the frozen clock itself (not its rounding)
